@@ -200,6 +200,26 @@ def run(ctx):
                         ctx.violation("C07/%s/call-history" % name.split("(")[0], "%s(%s=%g): after the call history %s the same channel object adds noise of power %.4g where a fresh one (same seed) adds %.4g" % (
                             name, kind, v, hist, pa, pb), {"family": name, "kind": kind, "value": v, "history": hist, "seed": seed})
                         break
+    # parameters re-assigned on a live channel object (the sweep idiom of the examples) take effect
+    for name, mk, base, kwf, kinds in runs:
+        for kind, first, second in (("snr_db", 0.0, 20.0), ("avg_noise_power", 0.01, 2.0)) + ((("scale", 0.1, 3.0),) if "scale" in kinds else ()):
+            for cplx in (False, True):
+                x = mkx((4, 12), cplx, 1.0, rng.randrange(1 << 30))
+                kw = kwf(x)
+                ch = mk(kind, first)
+                seed = rng.randrange(1 << 30)
+                try:
+                    noise_of(ch, base, x, seed, **kw)
+                    setattr(ch, kind, second)
+                    a = noise_of(ch, base, x, seed + 1, **kw)
+                    b_ = noise_of(mk(kind, second), base, x, seed + 1, **kw)
+                except Exception as ex:
+                    ctx.note("%s: re-assigning %s raised %s" % (name, kind, str(ex)[:60]))
+                    continue
+                ctx.count("reassigned-parameter-cases")
+                if not torch.allclose(a, b_, rtol=1e-6, atol=0):
+                    ctx.violation("C07/%s/parameter-reassigned" % name.split("(")[0], "%s: after one forward at %s=%g and `channel.%s = %g` the channel adds noise of power %.4g where a fresh channel at %g adds %.4g (same seed)" % (
+                        name, kind, first, kind, second, float((a.abs() ** 2).mean()), second, float((b_.abs() ** 2).mean())), {"family": name, "kind": kind, "first": first, "second": second})
     # add_noise_for_snr: same seed, two SNRs 10 dB apart and the signal scaled by 4
     for cplx in (False, True):
         for shape in shapes:
